@@ -1,0 +1,111 @@
+//go:build verif
+
+// C05 (resource manager part): pending changes are drained into the NRI reply.
+//
+// Abstract (ghost) view of the cache's pending-change machinery, per cached container c:
+//   ureq[c]   the undelivered ContainerUpdate accumulated by Set* calls (nil: none)
+//   adj[c]    the undelivered ContainerAdjustment of a container being created (nil: none)
+//   marks[c]  the set of controllers c is marked pending for; c is in the cache's pending set iff non-empty
+// The cache package proves that its implementation behaves like this (container.Set*, getPendingRequest,
+// GetPendingUpdate/Adjustment, markPending, ClearPending, GetPendingContainers); here the interface
+// contracts in verif_contracts.go ASSUME it, including the invariant pendOK(): a container with an
+// undelivered request is marked pending.
+
+package resmgr
+
+//@ ghost ureq arr[cache.Container]*api.ContainerUpdate
+//@ ghost adj arr[cache.Container]*api.ContainerAdjustment
+//@ ghost marks arr[cache.Container]arr[string]bool
+
+//@ ghost pushN int
+//@ ghost pushed []*api.ContainerUpdate
+
+// the empty set of controllers
+//@ pure noMarks() arr[string]bool
+// the container a request object was created for, and a container's id (both fixed at creation)
+//@ pure owner(u *api.ContainerUpdate) cache.Container
+//@ pure aowner(a *api.ContainerAdjustment) cache.Container
+//@ pure idOf(c cache.Container) string
+
+//@ pure marked(c cache.Container) bool = marks[c] != noMarks()
+//@ pure pendOK() bool = (forall s string :: !noMarks()[s]) &&
+//@     (forall c cache.Container :: (ureq[c] != nil || adj[c] != nil) ==> marked(c))
+//@ pure isSkip(skip *api.Container, c cache.Container) bool = skip != nil && skip.GetId() == idOf(c)
+// nothing is left to deliver, except for the container `skip` (the one being created or stopped)
+//@ pure drained(skip *api.Container) bool = forall c cache.Container :: !isSkip(skip, c) ==> ureq[c] == nil
+
+// expected marks of a pending container x once the drain loop has (done) / has not yet visited it
+//@ pure expMarks(skip *api.Container, x cache.Container, done bool) arr[string]bool =
+//@     (done && !isSkip(skip, x) && old(ureq)[x] != nil) ? noMarks() : old(marks)[x]
+
+//@ func (*nriPlugin).getPendingUpdates safety
+//@   requires p != nil && p.resmgr != nil && p.resmgr.cfg != nil && p.resmgr.cache != nil
+//@   requires pendOK()
+//@   ensures[C15] guardedStep(old(unguarded), unguarded)
+//@   # only requests of pending containers other than skip, handed over verbatim
+//@   ensures[C05] forall k int :: 0 <= k && k < len(result) ==> result[k] != nil && !isSkip(skip, owner(result[k])) &&
+//@                  old(marks)[owner(result[k])] != noMarks() && result[k] == old(ureq)[owner(result[k])]
+//@   # at most one update per container
+//@   ensures[C05] forall i int, j int :: 0 <= i && i < j && j < len(result) ==> owner(result[i]) != owner(result[j])
+//@   # every undelivered update (other than skip's) is in the reply ...
+//@   ensures[C05] forall c cache.Container :: old(ureq)[c] != nil && !isSkip(skip, c) ==> exists k int :: 0 <= k && k < len(result) && result[k] == old(ureq)[c]
+//@   # ... nothing stays pending, and the marks of the drained containers are cleared
+//@   ensures[C05] drained(skip)
+//@   ensures[C05] forall c cache.Container :: old(ureq)[c] != nil && !isSkip(skip, c) ==> !marked(c)
+//@   ensures[C05] forall c cache.Container :: old(ureq)[c] == nil || isSkip(skip, c) ==> marks[c] == old(marks)[c]
+//@   # the skipped container is left alone
+//@   ensures[C05] forall c cache.Container :: isSkip(skip, c) ==> ureq[c] == old(ureq)[c] && adj[c] == old(adj)[c]
+//@   ensures[C05] pendOK()
+//@ loop 0 in (*nriPlugin).getPendingUpdates at "range m.cache.GetPendingContainers()"
+//@   invariant[C15] guardedStep(old(unguarded), unguarded)
+//@   invariant[C05] -1 <= rangeindex && rangeindex < len($t6)
+//@   invariant[C05] forall k int :: 0 <= k && k < len(updates) ==> updates[k] != nil && !isSkip(skip, owner(updates[k])) &&
+//@                  old(marks)[owner(updates[k])] != noMarks() && updates[k] == old(ureq)[owner(updates[k])]
+//@   invariant[C05] forall k int, j int :: 0 <= k && k < len(updates) && rangeindex < j && j < len($t6) ==> $t6[j] != owner(updates[k])
+//@   invariant[C05] forall i int, j int :: 0 <= i && i < j && j < len(updates) ==> owner(updates[i]) != owner(updates[j])
+//@   invariant[C05] forall j int :: 0 <= j && j <= rangeindex && !isSkip(skip, $t6[j]) && old(ureq)[$t6[j]] != nil ==>
+//@                  exists k int :: 0 <= k && k < len(updates) && updates[k] == old(ureq)[$t6[j]]
+//@   invariant[C05] forall j int :: 0 <= j && j < len($t6) ==> marks[$t6[j]] == expMarks(skip, $t6[j], j <= rangeindex)
+//@   invariant[C05] forall j int :: 0 <= j && j < len($t6) && (j > rangeindex || isSkip(skip, $t6[j])) ==> ureq[$t6[j]] == old(ureq)[$t6[j]] && adj[$t6[j]] == old(adj)[$t6[j]]
+//@   invariant[C05] forall j int :: 0 <= j && j <= rangeindex && !isSkip(skip, $t6[j]) ==> ureq[$t6[j]] == nil && adj[$t6[j]] == nil
+//@   invariant[C05] forall x cache.Container :: old(marks)[x] == noMarks() ==> marks[x] == old(marks)[x] && ureq[x] == old(ureq)[x] && adj[x] == old(adj)[x]
+// the invariants of the outer loop for the extended reply, before the marks of c are cleared
+//@ assert[C05] in (*nriPlugin).getPendingUpdates at "range c.GetPending()": !isSkip(skip, c) && owner(u) == c && u == old(ureq)[c] && old(marks)[c] != noMarks() && c == $t6[$t10]
+//@ assert[C05] in (*nriPlugin).getPendingUpdates at "range c.GetPending()": len($t25) == len($t8) + 1 && $t25[len($t8)] == u && (forall k int :: 0 <= k && k < len($t8) ==> $t25[k] == $t8[k])
+//@ assert[C05] in (*nriPlugin).getPendingUpdates at "range c.GetPending()": forall k int :: 0 <= k && k < len($t25) ==> $t25[k] != nil && !isSkip(skip, owner($t25[k])) &&
+//@                  old(marks)[owner($t25[k])] != noMarks() && $t25[k] == old(ureq)[owner($t25[k])]
+//@ assert[C05] in (*nriPlugin).getPendingUpdates at "range c.GetPending()": forall k int, j int :: 0 <= k && k < len($t25) && $t10 < j && j < len($t6) ==> $t6[j] != owner($t25[k])
+//@ assert[C05] in (*nriPlugin).getPendingUpdates at "range c.GetPending()": forall i int, j int :: 0 <= i && i < j && j < len($t25) ==> owner($t25[i]) != owner($t25[j])
+//@ assert[C05] in (*nriPlugin).getPendingUpdates at "range c.GetPending()": forall j int :: 0 <= j && j <= $t9 && !isSkip(skip, $t6[j]) && old(ureq)[$t6[j]] != nil ==>
+//@                  exists k int :: 0 <= k && k < len($t8) && $t8[k] == old(ureq)[$t6[j]] && $t25[k] == $t8[k]
+//@ assert[C05] in (*nriPlugin).getPendingUpdates at "range c.GetPending()": forall j int :: 0 <= j && j <= $t10 && !isSkip(skip, $t6[j]) && old(ureq)[$t6[j]] != nil ==>
+//@                  exists k int :: 0 <= k && k < len($t25) && $t25[k] == old(ureq)[$t6[j]]
+//@ loop 1 in (*nriPlugin).getPendingUpdates at "range c.GetPending()"
+//@   modifies marks
+//@   invariant[C05] -1 <= rangeindex && rangeindex < len($t26)
+//@   invariant[C05] forall j int :: 0 <= j && j < len($t6) && j != $t10 ==> marks[$t6[j]] == expMarks(skip, $t6[j], j <= $t9)
+//@   invariant[C05] forall x cache.Container :: old(marks)[x] == noMarks() ==> marks[x] == old(marks)[x]
+//@   invariant[C05] forall s string :: marks[$t13][s] ==> exists t int :: rangeindex < t && t < len($t26) && $t26[t] == s
+
+//@ func (*nriPlugin).getPendingAdjustment safety
+//@   requires p != nil && p.resmgr != nil && p.resmgr.cfg != nil && p.resmgr.cache != nil
+//@   requires pendOK()
+//@   ensures[C15] guardedStep(old(unguarded), unguarded)
+//@   # the adjustment in a CreateContainer reply is the one of the container being created, verbatim
+//@   ensures[C05] result != nil ==> idOf(aowner(result)) == container.GetId() && result == old(adj)[aowner(result)]
+//@   # no other container's pending state is touched
+//@   ensures[C05] forall c cache.Container :: idOf(c) != container.GetId() ==> ureq[c] == old(ureq)[c] && adj[c] == old(adj)[c] && marks[c] == old(marks)[c]
+//@   ensures[C05] pendOK()
+//@ loop 0 in (*nriPlugin).getPendingAdjustment at "range c.GetPending()"
+//@   modifies marks
+//@   invariant[C05] forall x cache.Container :: x != c ==> marks[x] == old(marks)[x]
+//@   invariant[C05] forall s string :: marks[c][s] ==> exists t int :: rangeindex < t && t < len($t11) && $t11[t] == s
+
+// Post-reconfiguration push: everything pending is drained and handed to the runtime in one UpdateContainers call.
+//@ func (*nriPlugin).updateContainers safety
+//@   requires p != nil && p.resmgr != nil && p.resmgr.cfg != nil && p.resmgr.cache != nil && p.stub != nil
+//@   requires pendOK()
+//@   ensures[C15] guardedStep(old(unguarded), unguarded)
+//@   ensures[C05] pendOK() && drained(nil) && pushN == old(pushN) + 1
+//@   ensures[C05] forall c cache.Container :: old(ureq)[c] != nil ==> exists k int :: 0 <= k && k < len(pushed) && pushed[k] == old(ureq)[c]
+//@   ensures[C05] forall i int, j int :: 0 <= i && i < j && j < len(pushed) ==> owner(pushed[i]) != owner(pushed[j])
